@@ -107,7 +107,8 @@ ASMJIT_FAVOR_SIZE Error init_call_conv(CallConv& cc, CallConvId call_conv_id, co
         cc.set_passed_order(RegGroup::kVec, 0, 1, 2, 3, 4, 5, 6, 7);
         cc.set_passed_order(RegGroup::kMask, 0, 1, 2, 3, 4, 5, 6, 7);
         cc.set_passed_order(RegGroup::kX86_MM, 0, 1, 2, 3, 4, 5, 6, 7);
-        cc.set_preserved_regs(RegGroup::kGp, Support::lsb_mask<uint32_t>(8));
+        // EAX and EDX are used to return integers (EDX:EAX in case of a 64-bit one), so they cannot be preserved.
+        cc.set_preserved_regs(RegGroup::kGp, Support::lsb_mask<uint32_t>(8) & ~Support::bit_mask<RegMask>(kZax, kZdx));
         cc.set_preserved_regs(RegGroup::kVec, Support::lsb_mask<uint32_t>(8) & ~Support::lsb_mask<uint32_t>(n));
 
         cc.set_natural_stack_alignment(16);
@@ -203,7 +204,8 @@ ASMJIT_FAVOR_SIZE Error init_call_conv(CallConv& cc, CallConvId call_conv_id, co
         cc.set_passed_order(RegGroup::kMask, 0, 1, 2, 3, 4, 5, 6, 7);
         cc.set_passed_order(RegGroup::kX86_MM, 0, 1, 2, 3, 4, 5, 6, 7);
 
-        cc.set_preserved_regs(RegGroup::kGp, Support::lsb_mask<uint32_t>(16));
+        // RAX is used to return integers, so it cannot be preserved.
+        cc.set_preserved_regs(RegGroup::kGp, Support::lsb_mask<uint32_t>(16) & ~Support::bit_mask<RegMask>(kZax));
         cc.set_preserved_regs(RegGroup::kVec, ~Support::lsb_mask<uint32_t>(n));
         break;
       }
